@@ -197,10 +197,33 @@ def text_class(v):
     return klass(v)
 
 
+def with_plugin_call(spec):
+    """every third workbook (decided by its content) gets one formula
+    wrapped in a plugin function; all models are compiled and loaded with
+    the plugin module"""
+    text = repr(spec['sheets'])
+    if len(text) % 3 or 'VCOUNT' in text:
+        return spec
+    plain = [a for a in spec['formulas']
+             if isinstance(spec['sheets'][a.rsplit('!', 1)[0]].get(
+                 a.rsplit('!', 1)[1]), str)]
+    if not plain:
+        return spec
+    sheet, coord = plain[len(text) % len(plain)].rsplit('!', 1)
+    out = dict(spec)
+    out['sheets'] = {n: dict(c) for n, c in spec['sheets'].items()}
+    out['sheets'][sheet][coord] = \
+        '=VCOUNT(9,' + spec['sheets'][sheet][coord][1:] + ')'
+    return out
+
+
+PLUGINS = 'vlib.plugin'
+
+
 def check_case(rec, spec, hostile, fmt, cycles, extra, pre, post, loader,
                tmp=None, defer=None):
     from pycel.excelcompiler import ExcelCompiler
-    spec = inject(spec, hostile)
+    spec = with_plugin_call(inject(spec, hostile))
     case = dict(spec=spec, hostile=[], fmt=fmt, cycles=cycles, extra=extra,
                 pre=[list(s) for s in pre], post=[list(s) for s in post],
                 loader=loader)
@@ -220,7 +243,7 @@ def check_case(rec, spec, hostile, fmt, cycles, extra, pre, post, loader,
             # -- original model, pre-save history -----------------------------
             original = compile_spec(
                 wbspec.build_spec(spec), cycles=cycles or None,
-                filename=os.path.join(tmp, 'book'))
+                filename=os.path.join(tmp, 'book'), plugins=PLUGINS)
             for addr in wbspec.all_cells(spec):
                 models.safe_eval(original, addr)
             for step in pre:
@@ -266,7 +289,7 @@ def check_case(rec, spec, hostile, fmt, cycles, extra, pre, post, loader,
 
             # -- load ------------------------------------------------------------
             def load():
-                return ExcelCompiler.from_file(path)
+                return ExcelCompiler.from_file(path, plugins=PLUGINS)
             try:
                 loaded = run_on_thread(load) if loader == 'thread' else load()
             except Exception as exc:
@@ -589,7 +612,7 @@ out = []
 for job in jobs:
     res = dict(cells={}, obs=[], error=None)
     try:
-        m = ExcelCompiler.from_file(job['path'])
+        m = ExcelCompiler.from_file(job['path'], plugins='vlib.plugin')
         for a in job['cells']:
             res['cells'][a] = models.safe_eval(m, a)
         for step in job['post']:
